@@ -34,6 +34,8 @@ type AddIn struct {
 	Topics [][]GChan `json:"topics,omitempty"` // per node: its channels
 	TNums  [][6]int64 `json:"tnums,omitempty"`
 	TPause []bool    `json:"tpause,omitempty"`
+	Raw    bool      `json:"raw,omitempty"`    // e2eadd: the first block's ChannelStats is the receiver
+	Blocks []*GE2e   `json:"blocks,omitempty"` // e2eadd: one e2e block per node (nil: none)
 	Name   string    `json:"name"`
 }
 
@@ -54,9 +56,7 @@ func realChan(c GChan) *verifshim.ChannelStats {
 			cs.Clients = append(cs.Clients, &verifshim.ClientStats{ClientID: cl.ID, Hostname: cl.Host})
 		}
 	}
-	if c.E2e == "ok" {
-		cs.E2eProcessingLatency = &verifshim.E2eAggregate{Count: 1, Percentiles: []map[string]float64{{"quantile": 0.5, "value": 3, "min": 3, "max": 3, "average": 3, "count": 1}}}
-	}
+	cs.E2eProcessingLatency = realE2e(c.E2e) // decoded by the real UnmarshalJSON
 	return cs
 }
 
@@ -80,6 +80,8 @@ func runAddCase(o *lib.Out, in AddIn) {
 		o.Emit(lib.Case{Name: in.Name, Coq: coq, Input: in, Tags: append([]string{"fn=" + in.Kind}, tags...), Nontrivial: true})
 	}
 	switch in.Kind {
+	case "e2eadd":
+		runE2eAdd(o, in)
 	case "uniq":
 		got := verifshim.StringyUniq(append([]string{}, in.L...))
 		emit(fmt.Sprintf("(J18.CUniq %s %s)", cbl(in.L), cbl(got)), fmt.Sprintf("dups=%v", len(got) < len(in.L)))
@@ -156,7 +158,7 @@ func runAddCase(o *lib.Out, in AddIn) {
 		}
 		var chans []string
 		for _, c := range acc.Channels {
-			chans = append(chans, fmt.Sprintf("(mkOC %s %s %s)", cb(c.ChannelName), chanNums(c), lib.CoqBool(c.Paused)))
+			chans = append(chans, fmt.Sprintf("(mkOC %s %s %s OENone)", cb(c.ChannelName), chanNums(c), lib.CoqBool(c.Paused)))
 		}
 		emit(fmt.Sprintf("(J18.CTopicAdd [%s] [%s] %s [%s])", strings.Join(nodes, ";"), strings.Join(tp, ";"), lib.CoqBool(acc.Paused), strings.Join(chans, ";")),
 			fmt.Sprintf("nodes=%d", len(in.Topics)))
@@ -172,6 +174,10 @@ func runAddFn(o *lib.Out, r *lib.Rand, n int, replay string) {
 		}
 		return
 	}
+	for _, in := range e2eMatrix(r, 2*n) {
+		runAddCase(o, in)
+	}
+	genIdle, genPctSet = false, []int{0, 1}
 	alphabet := []string{"a", "b", "c", "A", "", "a ", "orders", "events", "orders"}
 	randList := func(max int) []string {
 		k := r.Intn(max + 1)
